@@ -1,4 +1,5 @@
 import HapVerif.Model.C01
+import HapVerif.Model.C01Tcp
 import HapVerif.Drv.Common
 /-
 Driver of C01. Case line: `C01 hist <op> <op> ... => <verdict> <obs> <obs> ...`
@@ -80,8 +81,35 @@ def parseAddrs (s : String) : List (String × Bool × String) :=
 
 inductive Tok
   | op (o : Op)
+  | tcp (d : C01Tcp.Data)      -- `tcp~…`: the whole data of the --tcp-services-configmap ConfigMap
   | sync
   | bad (s : String)
+
+/-- name of the tcp-services ConfigMap of the harness (`world.TCPConfigMapDefault`) -/
+def tcpConfigMap : String := "ingress-controller/tcp-services"
+
+/-- `tcp~<port>=<ns/svc>:<port>:<in>:<out>:<crt>:<check>:<ca>;…` (`-` = no entries), as `configmap.parseService` splits it -/
+def parseTcp (arg : String) : C01Tcp.Data :=
+  if arg = "-" ∨ arg = "" then [] else
+    (arg.splitOn ";").filterMap fun kv =>
+      match kv.splitOn "=" with
+      | k :: v :: rest =>
+        let f := (unq ("=".intercalate (v :: rest))).splitOn ":"
+        let g (i : Nat) : String := f.getD i ""
+        some { port := k, svc := g 0, svcPort := g 1, inProxy := g 2, outProxy := g 3, crt := g 4, check := g 5, ca := g 6 }
+      | _ => none
+
+def nsName (s : String) : Bool :=
+  match s.splitOn "/" with
+  | [ns, n] => ns ≠ "" && n ≠ "" && !(s.contains '_')
+  | _ => false
+
+/-- entries inside the modelled fragment: numeric public ports without leading zero, pairwise distinct (the Go map
+has one value per key; two keys with one numeric value would meet in map order), `ns/name` service and secrets -/
+def tcpInFragment (d : C01Tcp.Data) : Bool :=
+  d.all (fun e => e.port ≠ "" && e.port.toList.all Char.isDigit && !(e.port.startsWith "0") && nsName e.svc &&
+    (e.crt = "" || nsName e.crt) && (e.ca = "" || nsName e.ca)) &&
+  (d.map (·.port)).Nodup
 
 /-- the controller options of a history (`syncOptions` of the harness): `some (some (ns, svc))` =
 --default-backend-service, `some none` = not set, `none` = an option outside the model (`opt~xns=1`, a value
@@ -100,6 +128,7 @@ def parseOptions (toks : List String) : Option (Option (String × String)) :=
 
 def parseOp (t : String) : Tok :=
   if t = "sync" then .sync else
+  if t.startsWith "tcp~" then .tcp (parseTcp (t.drop 4).toString) else
   let pick : Option (String × Char × String) :=
     ["ing", "svc", "sec", "cls", "pod", "ep", "cm"].foldl (fun acc k =>
       if t.startsWith k ∧ t.length > k.length then
@@ -188,6 +217,17 @@ def hostsStr (st : St) : String :=
 
 def backsStr (st : St) : String := joinC (sortStr (st.backs.map (·.id)))
 
+def dashS (s : String) : String := if s = "" then "-" else s
+
+/-- the tcp backends as the harness renders them (`c01tcpObs`): sorted by public port, files by base name -/
+def tcpStr (l : List C01Tcp.TcpBack) : String :=
+  let sorted := l.mergeSort fun a b => a.port ≤ b.port
+  joinC (sorted.map fun b =>
+    ">".intercalate [toString b.port, b.name, dashS ("+".intercalate (sortStr b.eps)), (if b.decode then "d" else "-"),
+      dashS b.encode, dashS b.check,
+      (if b.crt = "" then "-" else C01Tcp.backName b.crt ++ ".pem"),
+      (if b.ca = "" then "-" else "ca_" ++ C01Tcp.backName b.ca ++ ".pem")])
+
 def field (obs : List String) (k : String) : String :=
   match obs.find? (·.startsWith (k ++ "=")) with
   | some f => (f.drop (k.length + 1)).toString
@@ -237,6 +277,8 @@ structure Run where
   c : Ctl := {}
   b : Batch := {}
   k : Nat := 0                          -- syncs so far
+  tcp : C01Tcp.Ctl := {}                -- tcp backends of the ConfigMap converter and TCPConfigMapDataCur
+  tcpNew : Option C01Tcp.Data := none   -- TCPConfigMapDataNew of the batch being collected
   mism : Option String := none          -- first disagreement with the implementation
   sig : Option String := none           -- first violated side condition
   nontrivial : Bool := false
@@ -260,6 +302,8 @@ def doSync (r : Run) (obs? : Option String) : Run :=
     else none
   let c' := reconcile currentRev w b r.c
   let new := c'.st
+  -- the ConfigMap tcp converter: the decision of the code (`always`, tie `tcp_runs_when_configured`)
+  let tc' := C01Tcp.reconcile (fun _ => C01Tcp.always) w full r.tcpNew b.links r.tcp
   let k := r.k + 1
   let mism := if r.mism.isSome then r.mism else
     match obs? with
@@ -286,6 +330,7 @@ def doSync (r : Run) (obs? : Option String) : Run :=
         chk "tracker" (partitionStr new.tr) (field f "P"),
         chk "hosts" (hostsStr new) (field f "H"),
         chk "backs" (backsStr new) (field f "B"),
+        chk "tcp" (tcpStr tc'.st) (field f "T"),
         if (if full then (csv (field f "uh")).all (· ∈ newH) && newH.all (· ∈ csv (field f "uh"))
             else explained (csv (field f "uh")) oldH newH dH) then none else some s!"sync{k}:updating-hosts:{field f "uh"}:dirty={joinC dH}",
         if explained (csv (field f "ub")) oldB newB dB then none else some s!"sync{k}:updating-backends:{field f "ub"}:dirty={joinC dB}",
@@ -293,8 +338,10 @@ def doSync (r : Run) (obs? : Option String) : Run :=
         if describesOk then none else
           some s!"sync{k}:batch-does-not-describe-the-change:{(describesWhy r.wPrev w b).getD "-"}"]
       checks.findSome? id
-  { wPrev := w, w := w, c := c', b := {}, k := k, mism := mism, sig := sig,
-    nontrivial := r.nontrivial || (!full && !out.isEmpty) }
+  { wPrev := w, w := w, c := c', b := {}, k := k, mism := mism, sig := sig, tcp := tc', tcpNew := none,
+    nontrivial := r.nontrivial || (!full && !out.isEmpty) ||
+      -- a partial sync whose batch names something an entry of the tcp ConfigMap reads
+      (!full && r.tcpNew.isNone && b.links.any fun n => decide (n ∈ C01Tcp.reads (r.tcp.cur.getD []))) }
 
 def handle (args : List String) (impl : String) : Verdict :=
   match args with
@@ -309,13 +356,14 @@ def handle (args : List String) (impl : String) : Verdict :=
       let iw := words impl
       let verdict := iw.headD "?"
       let obs := iw.drop 1
-      let inFrag := opts.isSome && toks.all fun | .op o => opInFragment o | _ => true
+      let inFrag := opts.isSome && toks.all fun | .op o => opInFragment o | .tcp d => tcpInFragment d | _ => true
       let w0 := optWorld (opts.getD none)
       let hasTCP := toks.any fun | .op (.ingSet i) => i.ann.any (·.1 = "tcp-service-port") | _ => false
       let oracleOf (sig : Option String) : Option String :=
         if verdict = "eq" then none
         else if verdict.startsWith "diff:" then
-          some (if !inFrag then (if hasTCP then "tcp-service-difference" else "outside-model-difference")
+          some (if (verdict.splitOn "[tcp_").length > 1 then "tcp-configmap-services-differ-from-fresh"
+                else if !inFrag then (if hasTCP then "tcp-service-difference" else "outside-model-difference")
                 else sig.getD "unexplained-difference")
         else some ("error-" ++ ((verdict.splitOn ":").getD 1 "?" |>.take 40).toString)
       if !inFrag then
@@ -324,6 +372,7 @@ def handle (args : List String) (impl : String) : Verdict :=
         let r := toks.foldl (fun (ro : Run × List String) t =>
           match t with
           | .op o => let (w', b') := applyOp (ro.1.w, ro.1.b) o; ({ ro.1 with w := w', b := b' }, ro.2)
+          | .tcp d => ({ ro.1 with b := addLink ro.1.b ⟨.cm, tcpConfigMap⟩, tcpNew := some d }, ro.2)
           | .sync => (doSync ro.1 ro.2.head?, ro.2.drop 1)
           | .bad _ => ro) (({ wPrev := w0, w := w0 } : Run), obs)
         let run := r.1
